@@ -298,7 +298,9 @@ def run(ctx):
                         if x[0] == "call" and short_callee(x[1]) in ("uuid_from_obj", "uuid_from_str"):
                             okv = (short_callee(x[1]), origin_desc(x[2][0]))
         idsrc[target] = okv
-        if src == bdlcoll and okv and okv[0] == "uuid_from_obj" and okv[1].startswith(bdlcoll + "[]"):
+        import re as _re
+        whole = okv is not None and bool(_re.match(r"^%s\[\](\.1|@\w+\.0)?$" % _re.escape(bdlcoll), okv[1]))
+        if src == bdlcoll and okv and okv[0] == "uuid_from_obj" and whole:
             ctx.ok("c02.idmaps", key, "IdMaps.%s: name -> uuid_from_obj(%s)" % (fld, okv[1]), idmaps_new.loc())
         else:
             ctx.violation("c02.idmaps", key, "IdMaps.%s is built from %s with id %s, expected uuid_from_obj of the elements of %s" % (fld, src, okv, bdlcoll), idmaps_new.loc())
@@ -488,6 +490,9 @@ def check_parser_validations(ctx, prog):
             continue
         s2, b, t = hit
         n += 1
+        if b not in s2.body.reachable():
+            ctx.violation("c02.parser", key, "the validation %s.%s(..) is dead code (unreachable): a broken %s reference is no longer rejected" % (coll, meth, label), s2.fn.loc(t.get("ln")))
+            continue
         kind, detail = consumption(s2.body, b, t)
         okk = kind == "propagated"
         if not okk:
